@@ -29,6 +29,16 @@ BoilerLines(s) ==
     [] s = "indented"  -> LCs(5)       \* tab- and space-indented lines inside // comments
     [] s = "dashlist"  -> LCs(4)       \* "- " list items
     [] s = "trailsp"   -> LCs(2)       \* lines ending in blanks / a tab
+    \* block comments a "where does the header end" heuristic stumbles over
+    [] s = "k8sblock"   -> <<L("bopen"), L("bmid"), L("bmid"), L("bmid"), L("bmid"), L("bclose")>>   \* inner blank line (kubernetes-style)
+    [] s = "blockslash" -> <<L("bopen"), L("bmid"), L("bmid"), L("bclose")>>                       \* inner lines that look like // comments
+    [] s = "blockbuild" -> <<L("bopen"), L("bmid"), L("bmid"), L("bmid"), L("bmid"), L("bclose")>>   \* inner //go:build and // +build look-alikes
+    [] s = "blocks2"    -> <<L("bone"), L("blank"), L("bopen"), L("bmid"), L("bclose")>>            \* two block comments, blank line between
+    \* texts that interact with the generated-code marker rule
+    [] s = "dneline"     -> LCs(2)                           \* // text that merely mentions DO NOT EDIT / Code generated
+    [] s = "dneblock"    -> <<L("bopen"), L("bmid"), L("bmid"), L("bclose")>>   \* the same inside /* */
+    [] s = "othermarker" -> <<L("marker"), L("lc")>>          \* a full conforming marker line of another tool
+    [] s = "nearmiss"    -> LCs(2)                           \* marker without the final period / in lower case
     [] s = "blocklist" -> <<L("bopen"), L("bmid"), L("bmid"), L("bmid"), L("bmid"), L("bclose")>>   \* /* */ with " * " gutter and a list
 
 \* raw text = L1 \n L2 \n L3 [ \n <boilerplate bytes> ] [ \n\n //go:build <expr> ] \n\n package ...
